@@ -429,6 +429,7 @@ class AioEnv:
         r = await self.loop.run_until(target)
         if self.loop._vtime < target:  # quiescent before the horizon: time still passes
             self.loop._vtime = target
+        self.check_injected()
         return r
 
     async def settle(self, horizon: float = 1e6) -> str:
@@ -438,15 +439,38 @@ class AioEnv:
         r = await self.loop.run_until(target)
         if self.loop._vtime < target:
             self.loop._vtime = target
+        self.check_injected()
         return r
 
     async def set_terminated(self) -> None:
         await self.context.terminated.set()
 
+    def spawn_at(self, dt: float, passes: int, fn: Callable[[], Awaitable[Any]]) -> None:
+        """Run `fn` inside the loop at now+dt, `passes` scheduler passes after its timer fires.
+
+        `sleep`/`settle` act only once everything due at an instant has run; an action spawned
+        here interleaves with the server's and the application's work of that same instant, which
+        is how the race windows of a closure (a few passes wide) are reached on purpose."""
+        async def runner() -> None:
+            await asyncio.sleep(dt)
+            for _ in range(passes):
+                await asyncio.sleep(0)
+            await fn()
+
+        task = self.loop.create_task(runner(), name="verif-inject")
+        self._injected = getattr(self, "_injected", [])
+        self._injected.append(task)
+
+    def check_injected(self) -> None:
+        for t in getattr(self, "_injected", []):
+            if t.done() and not t.cancelled() and t.exception() is not None:
+                raise t.exception()
+
     def alive_tasks(self) -> List[str]:
         cur = asyncio.current_task(self.loop)
         return sorted(t.get_name() + ":" + getattr(t.get_coro(), "__qualname__", "?")
-                      for t in asyncio.all_tasks(self.loop) if t is not cur and not t.done())
+                      for t in asyncio.all_tasks(self.loop) if t is not cur and not t.done()
+                      and t.get_name() != "verif-inject")
 
 
 def run_aio(scenario: Callable[[AioEnv], Awaitable[Any]], cfg: Dict[str, Any],
